@@ -142,12 +142,14 @@ Bind(m, as0) ==
 (* Terminates), the bound only turns a mistake in this module into Undef.  *)
 (***************************************************************************)
 Fuel == 40
+MaxLen == 300      \* token sequences longer than this are not judged (TLC evaluates Expand with one stack frame per token)
 HsAdd(hs, ts) == [i \in DOMAIN ts |-> [ts[i] EXCEPT !.h = @ \cup hs]]
 NoPM(ts) == SelectSeq(ts, LAMBDA t : t.k # "pm")
 
 RECURSIVE Expand(_, _, _), Subst(_, _, _, _, _, _, _)
 Expand(ts, M, fuel) ==
   IF ts = <<>> THEN <<>>
+  ELSE IF Len(ts) > MaxLen THEN <<Undef>>
   ELSE LET t == Head(ts) rest == Tail(ts) IN
     IF t.k # "id" \/ ~IsMacro(M, t.s) \/ t.s \in t.h THEN <<t>> \o Expand(rest, M, fuel)
     ELSE IF fuel = 0 THEN <<Undef>>
